@@ -31,18 +31,18 @@ type Machine struct {
 	Indexes []*IndexState
 	ixSeq   int
 
-	everDeleted map[uint32][]bool
-	prevDeleted map[uint32][]bool // everDeleted as of the start of the current action // offsets deleted at some point -> columns that held a value when deleted
-	actions     int
-	bigPrefills int
-	prefillSeq  int
-	lastRes     []StepResult
+	everDeleted        map[uint32][]bool
+	prevDeleted        map[uint32][]bool // everDeleted as of the start of the current action // offsets deleted at some point -> columns that held a value when deleted
+	actions            int
+	bigPrefills        int
+	prefillSeq         int
+	lastRes            []StepResult
 	lastPrefillBase    int
 	lastPrefillOffsets []uint32
 
 	// observers
 	OnTxn    func(spec TxnSpec, res []StepResult, committed bool, eff *TxnEffect) // after model update
-	InFlight func(i int, txn *column.Txn, res []StepResult)                        // inside the body, after step i
+	InFlight func(i int, txn *column.Txn, res []StepResult)                       // inside the body, after step i
 }
 
 func NewMachine(prop string, sch *Schema, opts column.Options) *Machine {
